@@ -58,6 +58,7 @@ from ._modify import (
     make_modify_cache,
     retarget_symbol_uses,
 )
+from ._modify.functions import add_function_block_aux
 from .abi import ABI
 from .assembler import AsmSyntaxError, Assembler
 from .patch import InsertionContext, Patch
@@ -686,6 +687,7 @@ class RewritingContext:
                     for sect in assembler_result.sections.values():
                         sect.cfi_procedures.clear()
 
+                target_is_code = isinstance(actual_block, gtirb.CodeBlock)
                 actual_block, insert_len = self._insert_assembler_result(
                     modify_cache,
                     actual_block,
@@ -695,6 +697,20 @@ class RewritingContext:
                     context,
                     assembler_result,
                 )
+                if func is not None and not target_is_code:
+                    # An earlier patch at this location ended in data, so
+                    # this one went into that data block and insert() could
+                    # not tell that its code belongs to the function.
+                    for new_block in assembler_result.text_section.blocks:
+                        if (
+                            isinstance(new_block, gtirb.CodeBlock)
+                            and new_block.byte_interval is not None
+                            and new_block
+                            not in modify_cache.functions_by_block
+                        ):
+                            add_function_block_aux(
+                                modify_cache, new_block, func.uuid
+                            )
                 total_insert_len += (
                     insert_len - modification.scope._replacement_length()
                 )
